@@ -71,6 +71,13 @@ def check(ctx, ver, a, pfx, s, o):
             for i, k in enumerate(SEVKEYS[: len(sev)]):
                 if k in d and str(d[k]).upper() != sev[i].upper():
                     ctx.violation("v%s:%s-differs-from-rating" % (ver, k), "%s differs from the rating" % k, s, sev[i], d[k], replay=rp)
+                # the document is self-consistent: the rating it carries is the official rating of the score it carries
+                sk = SCOREKEYS[i]
+                if k in d and sk in d and type(d[sk]) is float:
+                    from .c09 import official
+                    if str(d[k]).upper() != official(ver, d[sk]).upper():
+                        ctx.violation("v%s:%s-is-not-the-rating-of-%s" % (ver, k, sk), "the rating in the document is not the official rating of the score in the document",
+                                      s, official(ver, d[sk]), {sk: d[sk], k: d[k]}, replay=rp)
         want = expected_metric_fields(ver, a)
         for k, v in want.items():
             if k in d and d[k] != v:
